@@ -12,8 +12,15 @@ def have(tool):
     return shutil.which(tool) is not None
 
 
-def run(cmd, timeout=120, cwd=None):
-    p = subprocess.run(cmd, stdout=subprocess.PIPE, stderr=subprocess.PIPE, timeout=timeout, cwd=cwd)
+def run(cmd, timeout=30, cwd=None):
+    """-> (returncode, stdout, stderr); a tool that hangs or crashes on an input has declined it:
+    returncode -999 and 'timeout' on stderr, never an exception into the check."""
+    try:
+        p = subprocess.run(cmd, stdout=subprocess.PIPE, stderr=subprocess.PIPE, timeout=timeout, cwd=cwd)
+    except subprocess.TimeoutExpired:
+        return -999, '', 'error: timeout'
+    except OSError as e:
+        return -998, '', 'error: %s' % e
     return p.returncode, p.stdout.decode('latin-1'), p.stderr.decode('latin-1')
 
 
